@@ -102,10 +102,21 @@ func c09B2(r *core.R) {
 	isCounterLoad := func(o pbfOrigin) bool {
 		return o.kind == "assign" && o.e != nil && fieldOf(info, o.e) == f.counter
 	}
-	isBlobResult := func(o pbfOrigin) bool {
+	var isBlobResult func(o pbfOrigin) bool
+	isBlobResult = func(o pbfOrigin) bool {
 		if o.kind == "result" {
+			// a result of the block reader (the blob itself, or a struct that carries it)
 			call, ok := ast.Unparen(o.e).(*ast.CallExpr)
-			return ok && callee(info, call) == f.blockReader.Obj && o.idx == 1
+			return ok && callee(info, call) == f.blockReader.Obj
+		}
+		if o.kind == "assign" && o.e != nil {
+			if isNilIdent(o.e) {
+				return true // "no block": nothing is sent for it
+			}
+			// the blob field of a struct value that is a result of the block reader
+			if base, fld := m.structLocalField(o.e); base != nil && namedPath(fld.Type()) == namedPath(f.blobIn.Type()) {
+				return c09AllDefs(m, base, map[types.Object]bool{}, isBlobResult)
+			}
 		}
 		return false
 	}
